@@ -464,3 +464,45 @@ Definition reuse_same_text (a b : khver) : bool := beq (v_text a) (v_text b).
 Definition reuse_same_stamp (a b : khver) : bool := v_stamp a =? v_stamp b.
 Definition reuse_same_stamp_size (a b : khver) : bool :=
   (v_stamp a =? v_stamp b) && Nat.eqb (length (v_text a)) (length (v_text b)).
+
+(* ------------------------------------------------------------------------------------------ *)
+(* known_hosts lines and their MARKERS (sshd(8), SSH_KNOWN_HOSTS FILE FORMAT)                  *)
+(* ------------------------------------------------------------------------------------------ *)
+(* A line of the file as far as the lookup for ONE host is concerned: its marker ("@revoked", "@cert-authority"
+   or none), whether anything follows the key (a trailing comment), whether its host field names the host
+   (literal id, member of a comma list, matching |1| hash — the matching itself is KnownHosts.v / C16) and the key.
+   Only a line WITHOUT a marker is a trust entry: a revoked key is never accepted, a cert-authority line only
+   matters for host certificates (which scrapli never asks for). *)
+Inductive marker := MPlain | MRevoked | MCertAuthority.
+Record khline := mkL { l_marker : marker; l_comment : bool; l_hit : bool; l_key : bytes }.
+Definition is_plain (m : marker) : bool := match m with MPlain => true | _ => false end.
+
+(* which lines a reader files as entries: [r_marker_blind] = strips a leading marker and keeps the rest,
+   [r_comments] = accepts text after the key *)
+Record reader := mkR { r_marker_blind : bool; r_comments : bool }.
+Definition selected (rd : reader) (l : khline) : bool :=
+  (r_marker_blind rd || is_plain (l_marker l)) && (r_comments rd || negb (l_comment l)).
+(* SSHKnownHosts._parse as written: the line pattern is exactly three fields "host keytype key", so a line with a
+   marker in front (four fields) or a comment behind is not selected *)
+Definition reader_as_written : reader := mkR false false.
+
+Definition hits (rd : reader) (ls : list khline) : list khline :=
+  filter (fun l => selected rd l && l_hit l) ls.
+(* lookup among the selected lines naming the host: for literal ids a later line overwrites the earlier one
+   ([first] = false), the |1| ids are scanned in file order ([first] = true) *)
+Definition lookup_lines (rd : reader) (first : bool) (ls : list khline) : option bytes :=
+  match (if first then hits rd ls else rev (hits rd ls)) with
+  | [] => None
+  | l :: _ => Some (l_key l)
+  end.
+
+(* the specification's side: some NON-marker line naming the host carries the key *)
+Definition plain_entry_has (ls : list khline) (sk : bytes) : bool :=
+  existsb (fun l => is_plain (l_marker l) && l_hit l && beq (l_key l) sk) ls.
+
+Definition opt_beq (a b : option bytes) : bool :=
+  match a, b with
+  | None, None => true
+  | Some x, Some y => beq x y
+  | _, _ => false
+  end.
